@@ -272,7 +272,7 @@ PROPS['C09'] = dict(
 # ---------------------------------------------------------------- C03
 C03_CFGS = [
     {'ARDUINOJSON_SLOT_ID_SIZE': 1, 'ARDUINOJSON_STRING_LENGTH_SIZE': 1, 'ARDUINOJSON_ENABLE_COMMENTS': 1, 'ARDUINOJSON_DEBUG': 1},
-    {'ARDUINOJSON_SLOT_ID_SIZE': 2, 'ARDUINOJSON_STRING_LENGTH_SIZE': 4, 'ARDUINOJSON_ENABLE_NAN': 1, 'ARDUINOJSON_ENABLE_INFINITY': 1, 'ARDUINOJSON_DECODE_UNICODE': 0},
+    {'ARDUINOJSON_SLOT_ID_SIZE': 2, 'ARDUINOJSON_STRING_LENGTH_SIZE': 4, 'ARDUINOJSON_ENABLE_NAN': 1, 'ARDUINOJSON_ENABLE_INFINITY': 1, 'ARDUINOJSON_DECODE_UNICODE': 0, 'ARDUINOJSON_AUTO_SHRINK': 0},
     {'ARDUINOJSON_SLOT_ID_SIZE': 4, 'ARDUINOJSON_STRING_LENGTH_SIZE': 2, 'ARDUINOJSON_ENABLE_COMMENTS': 1, 'ARDUINOJSON_ENABLE_NAN': 1, 'ARDUINOJSON_DEBUG': 1, 'ARDUINOJSON_POOL_CAPACITY': 4},
     {'ARDUINOJSON_SLOT_ID_SIZE': 1, 'ARDUINOJSON_STRING_LENGTH_SIZE': 2, 'ARDUINOJSON_ENABLE_INFINITY': 1, 'ARDUINOJSON_DECODE_UNICODE': 0, 'ARDUINOJSON_ENABLE_COMMENTS': 1},
     {'ARDUINOJSON_SLOT_ID_SIZE': 2, 'ARDUINOJSON_STRING_LENGTH_SIZE': 1, 'ARDUINOJSON_ENABLE_NAN': 1, 'ARDUINOJSON_DEBUG': 1, 'ARDUINOJSON_USE_DOUBLE': 0},
@@ -321,6 +321,7 @@ def c06_jobs(tier):
         Job('ledger-no-long-long', 'c04', 'c06hist', q(tier, 8000, 200000), defines={'ARDUINOJSON_USE_LONG_LONG': 0, 'ARDUINOJSON_POOL_CAPACITY': 8}, leaks=True, timeout=q(tier, 900, 10000)),
         Job('deser-bound', 'c03', 'bound', q(tier, 60000, 3000000), timeout=q(tier, 900, 10000)),
         Job('deser-bound-wide', 'c03', 'bound', q(tier, 30000, 1000000), defines={'ARDUINOJSON_STRING_LENGTH_SIZE': 4, 'ARDUINOJSON_POOL_CAPACITY': 4}, timeout=q(tier, 900, 10000)),
+        Job('deser-bound-no-shrink', 'c03', 'bound', q(tier, 20000, 600000), defines={'ARDUINOJSON_AUTO_SHRINK': 0, 'ARDUINOJSON_POOL_CAPACITY': 16}, timeout=q(tier, 900, 10000)),
     ]
 
 
@@ -380,6 +381,10 @@ def c15_jobs(tier):
         Job('grid', 'c15', 'grid', 0, timeout=q(tier, 900, 3600)),
         Job('grid-debug-small', 'c15', 'grid', 0, defines={'ARDUINOJSON_DEBUG': 1, 'ARDUINOJSON_SLOT_ID_SIZE': 2, 'ARDUINOJSON_POOL_CAPACITY': 8}, timeout=q(tier, 900, 3600)),
     ]
+    # calls without a NestingLimit option, in builds with different ARDUINOJSON_DEFAULT_NESTING_LIMIT
+    jobs.append(Job('default-limit', 'c15', 'default', 0, workers=4))
+    for n in ([3, 255] if tier == 'quick' else [0, 1, 3, 50, 255]):
+        jobs.append(Job('default-limit-%d' % n, 'c15', 'default', 0, workers=4, defines={'ARDUINOJSON_DEFAULT_NESTING_LIMIT': n}))
     if tier == 'thorough':
         jobs.append(Job('grid-O2', 'c15', 'grid', 0, flavour='asan2', timeout=3600))
         jobs.append(Job('grid-comments', 'c15', 'grid', 0, defines={'ARDUINOJSON_ENABLE_COMMENTS': 1, 'ARDUINOJSON_ENABLE_NAN': 1}, timeout=3600))
@@ -388,15 +393,15 @@ def c15_jobs(tier):
 
 PROPS['C15'] = dict(
     level='exploration',
-    rule='EVERY limit L in 0..255 x 15 shapes (JSON arrays, objects, alternating, inside a member discarded by a filter, arrays not admitted by an object filter, with whitespace, single-quoted keys; '
-         'MessagePack fixarray/array16/array32/fixmap/map16/map32, arrays inside a discarded member) x depths {L-1, L, L+1, L+2} closed, L unclosed, 5000 and 20000 openings: returned code, nesting(), '
+    rule='EVERY limit L in 0..255 x 21 shapes (JSON arrays, objects, alternating, inside a member discarded by a filter, arrays not admitted by an object filter, with whitespace, single-quoted keys, objects under a repeated key, nested container after/between siblings; '
+         'MessagePack fixarray/array16/array32/fixmap/map16/map32, arrays inside a discarded member, fixmap under a repeated key, nested container between siblings) x depths {L-1, L, L+1, L+2} closed, L unclosed, 5000 and 20000 openings: returned code, nesting(), '
          'and stack depth measured inside the reader (same build, same limit: thousands of openings must not use more stack than L+1..2 openings; half depth not more than the limit depth). '
          'The classification of TooDeep against earlier syntax errors on arbitrary inputs is checked by C10 (JSON) and C09 (MessagePack). distinct = (limit, shape)',
     jobs=c15_jobs,
     exhaustive=lambda tier: True,
-    min_evaluations=dict(quick=7000, thorough=14000),
+    min_evaluations=dict(quick=10000, thorough=20000),
     technique='exhaustive grid of limits and nesting shapes executed under ASan+UBSan with an in-process stack probe (lowest stack address seen by a custom reader), compared between two executions of the same build',
-    level_text='Exploration, complete for its grid (all 256 limits x 15 shapes x 8 depths); stack bound checked relatively, never against calibrated constants.',
+    level_text='Exploration, complete for its grid (all 256 limits x 21 shapes x 8 depths, plus the 21 shapes without a NestingLimit option in builds with other ARDUINOJSON_DEFAULT_NESTING_LIMIT values); stack bound checked relatively, never against calibrated constants.',
     level_note='Absolute stack size depends on the compiler and is not judged.',
     assumptions=COMMON_ASSUME,
     extra_coverage={'grid_calls': lambda agg, d: agg['counters'].get('grid_calls', 0), 'stack_comparisons': lambda agg, d: agg['counters'].get('stack_comparisons', 0)},
